@@ -145,14 +145,15 @@ PROPS = {
     "C06": {
         "run": ["EvalProps"], "functional": False,
         "n": {"quick": 300, "thorough": 6000},
-        "level_text": "Theorems: C06_retry_monitor_accepts_every_model_trace and C06_every_attempt_keeps_the_session_id_with_a_fresh_request_id: for every script, configuration and entry point the model's trace is accepted by the executable "
+        "level_text": "Theorems: C06_retry_monitor_accepts_every_model_trace, C06_every_attempt_keeps_the_session_id_with_a_fresh_request_id and C06_response_time_metric_accounts_for_exactly_the_attempts: for every script, configuration and entry point the model's trace is accepted by the executable "
                       "retry monitor step6 (at most 3 attempts; a further attempt only after a retryable outcome, with fewer than 3 attempts, no poll interval in force, and exactly "
                       "one wait inside the k-th window; no waits or retries among event reports; RequestsPerCheck = attempts made with the right success flag; the loop stops only "
                       "when it must) and by the id monitor step6ids (inside a check every request carries the session id of the check's first request; no request id is ever "
-                      "seen twice over the whole history, pings and reports included).  Plus: the back-off window is attained by every value (randomised).  Model tied to code by trace "
-                      "equality; both monitors also run on every implementation trace; observed jitter values are recorded.",
+                      "seen twice over the whole history, pings and reports included) and by the response-time monitor step6r (exactly one response-time metric per attempt, carrying the monotonic time between "
+                      "the two clock readings that bracket the attempt and the attempt's success; none on any other occasion).  Plus: the back-off window is attained by every value (randomised).  Model tied to code by trace "
+                      "equality; the three monitors also run on every implementation trace; observed jitter values are recorded.",
         "level_note": "Proved for the model, unbounded (GUIDs modelled as draws from an unbounded counter: the collision probability of real v4 UUIDs is not modelled).  "
-                      "ResponseTime metric count is covered by trace equality only.  Jitter is compared by window.",
+                      "Jitter is compared by window.",
         "diff_meaning": "The retry monitor rejects the implementation's trace (code 2), or the request/wait/metric projection differs from the model's.",
         "rule": "random scripted environments with per-attempt outcomes from {transport error, timeout, caller error, status classes, X-Retry-After, forged, unparseable, success}; "
                 "distinct = distinct implementation trace; non-trivial = at least one request",
